@@ -10,6 +10,7 @@ Decided clauses:
   C12.d  signature defaults are compared by identity/equality, never by truthiness
   C12.e  subcommand selection addresses every configuration key through `prefix`
          (nested components are nested subcommand levels)
+  C12.f  classmethods are recognised through the MRO (which parameter is implicit)
 Not decided: required/default/Optional derivation in _add_signature_parameter;
 binding for all signatures and inputs.
 """
@@ -316,6 +317,16 @@ def run(ctx: Ctx) -> int:
                 fn=fn,
             )
     ctx.floor("C12.e-prefixed-keys", n_pref, 8)
+
+    # ---------------- C12.f ---------------------------------------------------
+    # which parameter is the implicit first one (self / cls) decides what is offered and passed: a classmethod is
+    # recognised by looking the attribute up statically through the whole MRO (vars(cls) sees only the class's own)
+    icm = ctx.func("_parameter_resolvers:is_classmethod")
+    static = [c for c in calls_in(icm) if call_leaf(c) == "getattr_static"]
+    mro = any(isinstance(n_, ast.Attribute) and n_.attr in ("__mro__",) or (isinstance(n_, ast.Call) and call_leaf(n_) in ("mro", "getmro")) for n_ in ast.walk(icm))
+    own_only = [c for c in calls_in(icm) if call_leaf(c) == "vars" or (isinstance(c.func, ast.Attribute) and c.func.attr == "get" and "__dict__" in ast.unparse(c.func.value))] + [n_ for n_ in ast.walk(icm) if isinstance(n_, ast.Attribute) and n_.attr == "__dict__"]
+    ok = bool(static or mro) and not (own_only and not mro)
+    ctx.oblige("C12.f", ok, (own_only or static or [icm])[0], "is_classmethod looks the attribute up statically through the MRO (inherited classmethods included)" if ok else "is_classmethod only looks at the class's own attributes: a classmethod inherited from a base class is taken for a plain function, its first real parameter is dropped as if it were `cls`, and the method is called without it", fn=icm)
 
     ctx.trusted_base += ["argparse raises on conflicting option strings, so an unconditional --config option fails loudly if the component has a `config` parameter"]
     return ctx.finish(
